@@ -940,11 +940,13 @@ impl SetU64 {
                     !present
                 } else {
                     // println!("key is {}", key);
-                    if key > 128 * (*sz as usize) {
-                        // It is getting sparse, so let us switch back
-                        // to a non-hash table.
+                    if (e >> 7) as usize > *sz {
+                        // It is getting sparse (the same criterion as in
+                        // `with_capacity_and_max`), so let us switch back
+                        // to a hash table.
                         let cap = 2 * (*sz + 1);
-                        let mut new = SetU64::with_capacity_and_bits(cap as usize, 0);
+                        let mut new =
+                            SetU64::with_capacity_and_bits(cap as usize, compute_array_bits(e));
                         for x in self.iter() {
                             new.insert(x);
                         }
